@@ -160,6 +160,9 @@ impl Sys {
     fn units(&self, v: i128) -> Value {
         if v % self.scale == 0 && (v / self.scale).abs() < (1 << 30) {
             json!((v / self.scale) as i64)
+        } else if self.scale > 1 && v > 0 && (v % self.scale) == self.scale - 1 {
+            // regime O: k units minus one, i.e. what is left of i128::MAX (= 8 units - 1) after whole units were taken
+            json!(((v / self.scale) + 1) as i64)
         } else {
             json!(BAD)
         }
@@ -224,6 +227,7 @@ impl Sys {
         let e = &e;
         let kind = s(op, "op");
         let who = auth_addrs(op, &self.names);
+        // regime O: 8 units stand for i128::MAX itself (8 * 2^124 - 1)
         let amt: i128 = (n(op, "amt") as i128).checked_mul(self.scale).unwrap_or(i128::MAX);
         let addr = |k: &str| self.names.get(s(op, k));
         set_seq(e, seq(e) + n(op, "k") as u32);
@@ -393,7 +397,7 @@ fn main() {
                         let (o, s2, a) = *pick(&mut r, &pairs);
                         let cap = a.min((*bals.get(o).unwrap_or(&0)).max(1));
                         let v = match r.gen_range(0..8) { 0 => a, 1 => a + 1, 2 => 0, _ => r.gen_range(1..=cap.max(1)) };
-                        (o, s2, if regime == "O" { v.min(7) } else { v })
+                        (o, s2, if regime == "O" { v.min(7).min((*bals.get(o).unwrap_or(&0)).max(1)) } else { v })
                     } else {
                         (from, sp, amt)
                     };
@@ -414,7 +418,8 @@ fn main() {
                             if good { auth.push(from.into()); }
                             let du = *pick(&mut r, &[-1i64, 0, 0, 1, 1, 2, 3, 6, 6, 10, 10, 15, 15, (MAX_TTL - 1) as i64, (MAX_TTL - 1) as i64, MAX_TTL as i64]);
                             let amt = if r.gen_bool(0.6) { amt.max(1) } else { amt };
-                            let amt = if regime == "O" { amt.min(7) } else { amt };
+                            // exactly i128::MAX (8 units) is a popular "unlimited" allowance
+                            let amt = if regime == "O" { if r.gen_bool(0.3) { 8 } else { amt.min(7) } } else { amt };
                             json!({"op": "approve", "from": from, "to": "none", "sp": sp, "amt": amt, "until": (now + k + du).max(0), "auth": auth, "k": k})
                         }
                         "burn" => {
